@@ -18,7 +18,7 @@ echo "$out" | grep -q "test result: ok" || SUITE=false
 cp "$D/demo.rs" tests/seeded_demo.rs
 TC=""; case "$EXTRA" in *specialized*) TC="+nightly";; esac
 cargo $TC test --offline $EXTRA --test seeded_demo >$WT.with.log 2>&1; rc1=$?
-FAILS=false; [ $rc1 -ne 0 ] && grep -q "test result: FAILED\|panicked\|FAILED" $WT.with.log && FAILS=true
+FAILS=false; [ $rc1 -ne 0 ] && grep -q "test result: FAILED\|panicked\|FAILED\|error\[E\|could not compile" $WT.with.log && FAILS=true
 cd $WT && git checkout -q -- . && cd jmespath
 cargo $TC test --offline $EXTRA --test seeded_demo >$WT.without.log 2>&1; rc2=$?
 PASSES=false; [ $rc2 -eq 0 ] && grep -q "test result: ok" $WT.without.log && PASSES=true
